@@ -41,7 +41,12 @@ def world():
             R("rpx6", "s-px6", "prefix", 1, "valid", "V6a"),
             R("robfs6", "s-obfs6", "obfs4", 0, "valid", "V6b"),
             R("rmin6b", "s-min6b", "min", 0, "valid", "V6b"),
-            R("rtr6", "s-tr6", "min", 0, "tracked", "V6b")]
+            R("rtr6", "s-tr6", "min", 0, "tracked", "V6b"),
+            # duplicate registration MESSAGES for sessions already validated above, naming other parameters: ingest ignores a duplicate
+            # (nothing of it is validated), so the session stays bound to the prefix it was validated with
+            R("rpx1_dup5", "s-px1", "prefix", 5, "dupignored", "P1"),
+            R("rpx9_dup0", "s-px9", "prefix", 0, "dupignored", "P1"),
+            R("rpx6_dup3", "s-px6", "prefix", 3, "dupignored", "V6a")]
     return {"phantoms": {"P1": "192.122.190.10", "P2": "192.122.190.11", "P3": "192.122.190.12", "P0": "192.122.190.9",
                          "V6a": "2001:48a8:687f:1::a:1", "V6b": "2001:48a8:687f:1::b:2", "V6c": "2001:48a8:687f:1::c:3"}, "regs": regs}
 
@@ -56,6 +61,8 @@ def reorder(w, how, rng):
         regs = [r for r in regs if r["state"] == "expired"] + [r for r in regs if r["state"] != "expired"]
     elif how == "shuffle":
         rng.shuffle(regs)
+    # a duplicate message can only follow the registration it duplicates
+    regs = [r for r in regs if r["state"] != "dupignored"] + [r for r in regs if r["state"] == "dupignored"]
     return dict(w, regs=regs)
 
 
@@ -75,6 +82,8 @@ def gen_cases(ctx, thorough, w=None, tag="", sections=(1, 2, 3, 4, 5)):
     home = {r["name"]: r["phantom"] for r in w["regs"]}
     # 1. unaltered genuine flights: to their own phantom (must match exactly that registration) and to every other phantom
     for r in w["regs"]:
+        if r["state"] == "dupignored":
+            continue
         kw = {"from": r["name"], "early": 24, "late": 8}
         if r["transport"] == "prefix":
             kw["client_px"] = px[r["name"]]
